@@ -220,7 +220,7 @@ def sc_voronoi():
         if variant == 2:
             ctor.update(full_fraction=0.3, n_to_select=5)
         if variant == 3:
-            ctor.update(full_fraction=0.5, initialize="random", random_state=0)
+            ctor.update(full_fraction=0.5, initialize="random")          # DEFAULT random_state
         y = Arr(Y) if variant == 2 else None
         fit = dict(X=Arr(X), y=y)
         steps = [("fit", fit), ("score", dict(X=Arr(X), y=y)), ("get_distance", {}), ("get_select_distance", {}),
@@ -423,7 +423,8 @@ def sc_kde():
         steps = [("fit", fit), ("score_samples", dict(X=Arr(grid))), ("score", dict(X=Arr(grid))),
                  ("sample", dict(n_samples=2, random_state=0))]
         return dict(ctor=ctor, steps=steps, fit=fit,
-                    alt_fits={"A_then_B": dict(X=Arr(gridB)), "larger_then_smaller": dict(X=Arr(gridS))})
+                    alt_fits={"A_then_B": dict(X=Arr(gridB)), "larger_then_smaller": dict(X=Arr(gridS))},
+                    param_histories={"fpoints": (dict(fpoints=0.3), None)} if variant == 0 else {"fspread": (dict(fspread=0.8), None)})
     return dict(unit="neighbors.SparseKDE", cls="neighbors.SparseKDE", variants=2, make=make)
 
 
@@ -445,7 +446,9 @@ def sc_qs():
         alt = {"A_then_B": dict(X=Arr(ptsB), samples_weight=Arr(probs))}
         if variant == 2:
             alt["larger_then_smaller"] = dict(X=Arr(ptsS), samples_weight=Arr(probs[:5]))
-        return dict(ctor=ctor, steps=[("fit", fit)], fit=fit, alt_fits=alt)
+        ph = {"gabriel_shell": (dict(gabriel_shell=3), None)} if variant == 2 else \
+            {"dist_cutoff_sq": (dict(dist_cutoff_sq=Arr(cuts * 1.5)), None)} if variant == 0 else {}
+        return dict(ctor=ctor, steps=[("fit", fit)], fit=fit, alt_fits=alt, param_histories=ph)
     return dict(unit="clustering.QuickShift", cls="clustering.QuickShift", variants=3, make=make)
 
 
@@ -769,6 +772,7 @@ def _ft_combos(Cls, spec, dseed):
 
 
 def run_fit_transform_combos(rec, sc, variant, dseed, only=None):
+    import inspect
     Cls = imp(sc["cls"])
     unit = sc["unit"]
     if not hasattr(Cls, "fit_transform") or not hasattr(Cls, "transform"):
@@ -815,6 +819,24 @@ def run_fit_transform_combos(rec, sc, variant, dseed, only=None):
                     pipe.fit(data, ftkw["y"], **fp)
                     return pipe.named_steps["t"].transform(np.array(kw[first]))
                 routes.append(("Pipeline.fit [%s]" % label, through_pipeline))
+            # optional flags of fit_transform / transform themselves (copy=...): the RETURNED values must not depend on them
+            # (the reference always works on private copies with copy=True)
+            try:
+                ft_params = inspect.signature(Cls.fit_transform).parameters
+                tr_params = inspect.signature(Cls.transform).parameters
+            except (TypeError, ValueError):
+                ft_params = tr_params = {}
+            for flag in ("copy",):
+                for val in (True, False):
+                    if flag in ft_params:
+                        routes.append(("fit_transform(%s, %s=%r)" % (label, flag, val),
+                                       lambda val=val, flag=flag: fresh().fit_transform(np.array(data), **dict(cp(ftkw), **{flag: val}))))
+                    if flag in tr_params:
+                        def fit_then(val=val, flag=flag):
+                            e3 = fresh()
+                            invoke(e3, "fit", cp(kw))
+                            return e3.transform(np.array(kw[first]), **{flag: val})
+                        routes.append(("fit(%s).transform(X, %s=%r)" % (label, flag, val), fit_then))
             for rname, call in routes:
                 try:
                     perturb_global_rng()
@@ -831,6 +853,77 @@ def run_fit_transform_combos(rec, sc, variant, dseed, only=None):
                     rec.violation("C09 fails: %s %s differs from fit followed by transform with the same arguments" % (unit, rname),
                                   case, key="%s.fit_transform:equals fit.transform" % unit)
                     break
+
+
+# ------------------------------------------------------------------ random_state: default and every presentation of a seed
+def _uses_randomness(ctor):
+    return ("random_state" in ctor or ctor.get("initialize") == "random" or bool(ctor.get("shuffle"))
+            or ctor.get("svd_solver") in ("randomized", "arpack") or "k" in ctor)
+
+
+def run_seed_presentations(rec, sc, variant, dseed):
+    """every class with a random_state parameter, on the variants that draw random numbers: (i) with the DEFAULT
+    random_state two fits give the same state when the default is a seed; (ii) the same seed given as python int,
+    numpy integer of several widths or a fresh RandomState instance gives the same state -- numpy's global
+    generator being in a different state before each fit"""
+    import inspect
+    Cls = imp(sc["cls"])
+    unit = sc["unit"]
+    try:
+        sig = inspect.signature(Cls.__init__).parameters
+    except (TypeError, ValueError):
+        return
+    if "random_state" not in sig:
+        return
+    spec = sc["make"](variant, dseed)
+    if spec.get("nondeterministic") or not _uses_randomness(spec["ctor"]):
+        return
+    ignore = set(spec.get("ignore", ())) | {"random_state"}
+
+    def fitted(how):
+        ctor = realise(sc["make"](variant, dseed)["ctor"], "C")
+        ctor.pop("random_state", None)
+        if how != "default":
+            ctor["random_state"] = how()
+        est = Cls(**ctor)
+        perturb_global_rng()
+        with warnings.catch_warnings():
+            warnings.simplefilter("ignore")
+            invoke(est, "fit", realise(spec["fit"], "C"))
+        return est
+    perturb_global_rng(reset=True)
+    groups = []
+    default = sig["random_state"].default
+    if isinstance(default, int) and not isinstance(default, bool):
+        groups.append(("default random_state (%r)" % default, ["default", "default", lambda: default]))
+    for seed in (0, 3):
+        groups.append(("random_state=%d as int / numpy integers / RandomState instance" % seed,
+                       [lambda s=seed: s, lambda s=seed: np.int64(s), lambda s=seed: np.int32(s), lambda s=seed: np.intp(s),
+                        lambda s=seed: np.arange(s + 1)[s], lambda s=seed: np.random.RandomState(s)]))
+    names = {0: "reference", 1: "second"}
+    for label, hows in groups:
+        case = dict(kind="seeds", scenario=unit, variant=variant, dseed=dseed, layout="C", n_extra=N_EXTRA, group=label)
+        try:
+            ref = fitted(hows[0])
+        except Exception:     # noqa
+            rec.stats["seed_runs_not_applicable"] = rec.stats.get("seed_runs_not_applicable", 0) + 1
+            continue
+        for i, how in enumerate(hows[1:], 1):
+            try:
+                est = fitted(how)
+            except Exception as e:     # noqa
+                rec.violation("C09 fails: %s with %s: presentation #%d of the same seed raises %s: %s" % (
+                    unit, label, i, type(e).__name__, str(e)[:80]), case, key="%s.fit:seed presentation" % unit)
+                break
+            rec.stats["seed_presentation_pairs"] = rec.stats.get("seed_presentation_pairs", 0) + 1
+            d = state_diff(state(est), state(ref), ignore)
+            if d and tie_explains(Cls, sc, variant, dseed, "C", spec["fit"], est, ref):
+                rec.stats["ties_skipped"] += 1
+            elif d:
+                rec.violation("C09 fails: %s fitted on the same data with %s (presentation #%d vs #0, numpy's global generator "
+                              "re-seeded in between) gives different state: %s" % (unit, label, i, "; ".join(d[:4])),
+                              case, key="%s.fit:seed presentation" % unit, detail=d)
+                break
 
 
 # ------------------------------------------------------------------ fitted state must not alias the caller's fit arguments
@@ -1053,28 +1146,34 @@ def run_histories(rec, sc, variant, dseed, layout="C"):
         first = spec["fit"]
         if isinstance(second, tuple):
             first, second = second
-        hist[hname] = ([first], None, second)
+        hist[hname] = ([first], None, second, None)
     # round 3: longer and mixed sequences, for every class (not where the fit depends on wall-clock timings)
     timed = bool(spec.get("nondeterministic"))
     if not timed:
-        hist["same_data_twice"] = ([spec["fit"]], None, spec["fit"])
+        hist["same_data_twice"] = ([spec["fit"]], None, spec["fit"], None)
     ab = spec.get("alt_fits", {}).get("A_then_B")
     if isinstance(ab, dict) and not timed:
-        hist["A_B_then_A"] = ([spec["fit"], ab], None, spec["fit"])
+        hist["A_B_then_A"] = ([spec["fit"], ab], None, spec["fit"], None)
         sm = spec.get("alt_fits", {}).get("larger_then_smaller")
         if isinstance(sm, dict):
-            hist["A_smaller_then_B"] = ([spec["fit"], sm], None, ab)
-            hist["smaller_then_larger"] = ([sm], None, spec["fit"])
+            hist["A_smaller_then_B"] = ([spec["fit"], sm], None, ab, None)
+            hist["smaller_then_larger"] = ([sm], None, spec["fit"], None)
     for pname, (params, second) in ({} if timed else spec.get("param_histories", {})).items():
-        hist["set_params:" + pname] = ([spec["fit"]], params, second if second is not None else (ab if isinstance(ab, dict) else spec["fit"]))
-    for hname, (firsts, params, second) in sorted(hist.items()):
-        first = firsts[0]
+        last = second if second is not None else (ab if isinstance(ab, dict) else spec["fit"])
+        # public parameters changed after construction -- through set_params and by plain attribute assignment,
+        # between two fits and before the first fit: the object must behave like one constructed with the new values
+        hist["set_params:" + pname] = ([spec["fit"]], params, last, "set_params")
+        hist["setattr:" + pname] = ([spec["fit"]], params, last, "setattr")
+        hist["set_params_before_fit:" + pname] = ([], params, spec["fit"], "set_params")
+        hist["setattr_before_fit:" + pname] = ([], params, spec["fit"], "setattr")
+    for hname, (firsts, params, second, route) in sorted(hist.items()):
+        first = firsts[0] if firsts else None
         case = dict(kind="history", scenario=unit, variant=variant, dseed=dseed, layout=layout, n_extra=N_EXTRA, history=hname)
         rec.stats["histories"][hname.split(":")[0]] = rec.stats["histories"].get(hname.split(":")[0], 0) + 1
         try:
             if params:
                 ctor = realise(sc["make"](variant, dseed)["ctor"], layout)
-                ctor.update(params)
+                ctor.update(realise(params, layout))
                 fresh = Cls(**ctor)
                 with warnings.catch_warnings():
                     warnings.simplefilter("ignore")
@@ -1085,14 +1184,17 @@ def run_histories(rec, sc, variant, dseed, layout="C"):
             rec.errors["%s fresh fit %s %s" % (unit, hname, type(e).__name__)] = 1
             continue
         try:
-            est = fit_fresh(Cls, sc, variant, dseed, layout, first)
+            if first is None:
+                est = Cls(**realise(sc["make"](variant, dseed)["ctor"], layout))
+            else:
+                est = fit_fresh(Cls, sc, variant, dseed, layout, first)
         except Exception as e:     # noqa
             rec.errors["%s first fit %s %s" % (unit, hname, type(e).__name__)] = 1
             continue
         # use the fitted object before refitting it (transform / predict / score ...): anything
         # such a call caches must not survive the refit
         method_steps = [(m, kw) for m, kw in spec.get("steps", []) if m not in ("fit", "fit_transform", "sample") and not m.startswith("set_")]
-        for m, kw in method_steps:
+        for m, kw in (method_steps if first is not None else []):
             try:
                 with warnings.catch_warnings():
                     warnings.simplefilter("ignore")
@@ -1110,8 +1212,11 @@ def run_histories(rec, sc, variant, dseed, layout="C"):
                             invoke(est, m, realise(kw, layout))
                         except Exception:      # noqa
                             pass
-                if params:
-                    est.set_params(**params)
+                if params and route == "setattr":
+                    for pk, pv in realise(params, layout).items():
+                        setattr(est, pk, pv)
+                elif params:
+                    est.set_params(**realise(params, layout))
         except Exception as e:     # noqa
             rec.errors["%s intermediate step %s %s" % (unit, hname, type(e).__name__)] = 1
             continue
@@ -1181,6 +1286,7 @@ def run_dynamic(ctx):
                         run_histories(rec, sc, variant, dseed, "C")
                         run_fit_transform_combos(rec, sc, variant, dseed)
                         run_alias_case(rec, sc, variant, dseed)
+                        run_seed_presentations(rec, sc, variant, dseed)
                         if not quick:
                             run_histories(rec, sc, variant, dseed, "F")
             for sc in fn_scenarios():
@@ -1232,6 +1338,9 @@ def _replay_case(case):
         run_fit_transform_combos(rec, scs[case["scenario"]], case["variant"], case["dseed"], only=case.get("combo"))
     elif k == "alias":
         run_alias_case(rec, scs[case["scenario"]], case["variant"], case["dseed"])
+    elif k == "seeds":
+        run_seed_presentations(rec, scs[case["scenario"]], case["variant"], case["dseed"])
+        rec.violations = [x for x in rec.violations if x["case"].get("group") == case.get("group")]
     else:
         sc = scs[case["scenario"]]
         spec_hist = case.get("history")
